@@ -482,7 +482,7 @@ static void cx_ref_expand(cx_model *m, const char *in, cx_buf *out, int depth)
             cx_buf_addc(out, c);
         }
     }
-    if (out->n >= CONFIG_BUFF - 1) cx_weak(m, "output reaches the line-buffer limit");
+    if (out->n + (m->nwild ? 600 : 0) >= CONFIG_BUFF - 1) cx_weak(m, "output reaches the line-buffer limit");
     if (!out->b) cx_buf_adds(out, "");
 }
 
@@ -699,7 +699,7 @@ static void cx_model_file(cx_lmodel *lm, const cx_file *f, int fdepth)
                 char name[64]; size_t k = 0;
                 while (fn[k] && !cx_is_space(fn[k]) && k < 63) { name[k] = fn[k]; k++; }
                 name[k] = 0;
-                if (cx_has_meta(line)) cx_lm_weak(lm, "metacharacters in an include line");
+                if (cx_has_meta(line + 1)) cx_lm_weak(lm, "metacharacters in an include line");
                 cx_file *inc = cx_file_find(name);
                 lm->includes++;
                 if (inc) cx_model_file(lm, inc, fdepth + 1); else cx_lm_weak(lm, "include of a file that was not generated");
@@ -818,6 +818,143 @@ static void cx_gen_ws(cx_buf *b, int maxn)
     int n = (int) vh_below((uint64_t) maxn + 1);
     for (int i = 0; i < n; i++) cx_buf_addc(b, vh_coin(80) ? ' ' : vh_coin(70) ? '\t' : "\r\v\f"[vh_below(3)]);
 }
-static const char *CX_MAGIC = "<libast-0.8.1>\n";
+/* ================================================================== generator of well-formed config trees (C09; base material for C11) */
+typedef struct {
+    const cx_ctxs *ctxs;
+    int n_reg, expansion;
+    int depth, target_depth, ramping, files_left, chain_left, max_level, next_file_no;
+    long lines_emitted, line_budget;
+    char magic[64];
+} cx_gen_t;
+static cx_gen_t cx_g;
+static const char *CX_UNKNOWN[] = { "nosuch", "ghost", "x9", "alphax" };
+
+static const char *cx_gen_ctx_name(void)
+{
+    static char buf[32];
+    int r = (int) vh_below(100);
+    if (r < 70 || cx_g.n_reg == 0) {
+        if (cx_g.n_reg == 0 || cx_g.ctxs->n < 2) return CX_UNKNOWN[vh_below(4)];
+        int id = 1 + (int) vh_below((uint64_t) (cx_g.ctxs->n - 1));
+        snprintf(buf, sizeof buf, "%s", cx_g.ctxs->names[id]);
+        if (vh_coin(8)) for (char *p = buf; *p; p++) *p = (char) toupper((unsigned char) *p);    /* documented: case-insensitive */
+        return buf;
+    }
+    if (r < 90) return CX_UNKNOWN[vh_below(4)];
+    return "null";
+}
+static void cx_gen_line(cx_file *f, const char *body)
+{
+    cx_gen_ws(&f->data, vh_coin(30) ? 4 : 0);
+    cx_buf_adds(&f->data, body);
+    cx_gen_ws(&f->data, vh_coin(30) ? 4 : 0);
+    cx_buf_addc(&f->data, '\n');
+    cx_g.lines_emitted++;
+}
+static void cx_gen_begin(cx_file *f)
+{
+    cx_buf b = { 0 };
+    static const char *KW[] = { "begin", "begin", "begin", "begin", "bEGIN", "beGin" };
+    cx_buf_adds(&b, KW[vh_below(6)]);
+    cx_buf_addc(&b, ' ');
+    if (vh_coin(15)) cx_buf_adds(&b, vh_coin(50) ? " " : "\t ");
+    cx_buf_adds(&b, cx_gen_ctx_name());
+    if (vh_coin(10)) { cx_buf_addc(&b, ' '); cx_gen_ord(&b, (int) vh_range(1, 8), 1); }
+    cx_gen_line(f, b.b);
+    cx_buf_free(&b);
+    cx_g.depth++;
+}
+static void cx_gen_end(cx_file *f)
+{
+    static const char *E[] = { "end", "end", "end", "end alpha", "end  ", "eND", "end junk junk", "enD x" };
+    cx_gen_line(f, E[vh_below(8)]);
+    if (cx_g.depth > 0) cx_g.depth--;
+}
+static void cx_gen_text(cx_file *f)
+{
+    cx_buf b = { 0 };
+    int r = (int) vh_below(100);
+    if (r < 8) {
+        static const char *NM[] = { "begin", "beginx foo", "ending", "endx", "Begin alpha", "End", "b", "e", "begin\talpha", "endalpha", "END", "bend over", "e nd" };
+        cx_buf_adds(&b, NM[vh_below(13)]);
+    } else if (cx_g.expansion && r < 45) {
+        /* joint sub-population with C10: a few expansion constructs in delivered lines */
+        int n = (int) vh_range(1, 4);
+        for (int i = 0; i < n; i++) {
+            switch ((int) vh_below(7)) {
+            case 0: cx_buf_adds(&b, "$A"); break;
+            case 1: cx_buf_adds(&b, "${FOO}"); break;
+            case 2: cx_buf_adds(&b, "$(NOPE)"); break;
+            case 3: cx_buf_adds(&b, vh_coin(50) ? "\\t" : "\\\\"); break;
+            case 4: cx_buf_adds(&b, "%get(k1)"); break;
+            case 5: cx_buf_adds(&b, "'$A'"); break;
+            default: cx_buf_adds(&b, "~/x"); break;
+            }
+            cx_buf_addc(&b, ' ');
+            cx_gen_ord(&b, (int) vh_range(1, 6), 0);
+        }
+    } else {
+        static const char *KEYS[] = { "font", "color", "bind", "geometry", "title", "exec_path", "background", "enabled", "x" };
+        if (vh_coin(50)) { cx_buf_adds(&b, KEYS[vh_below(9)]); cx_buf_addc(&b, ' '); }
+        cx_gen_ord(&b, (int) vh_range(1, vh_coin(5) ? 300 : 30), 1);
+    }
+    cx_gen_line(f, b.b);
+    cx_buf_free(&b);
+}
+static void cx_gen_comment(cx_file *f)
+{
+    static const char *C[] = { "\n", "\n", "# comment begin alpha\n", "   \t# indented comment\n", "<something that looks like a magic line>\n", "#\n", "  \t \n" };
+    cx_buf_adds(&f->data, C[vh_below(7)]);
+    cx_g.lines_emitted++;
+}
+static void cx_gen_file(cx_file *f, int level);
+static void cx_gen_include(cx_file *f, int level)
+{
+    char name[48], line[80];
+    snprintf(name, sizeof name, "inc%d.cfg", cx_g.next_file_no++);
+    cx_file *inc = cx_file_new(name);          /* cx_files[] is a static array: f stays valid */
+    if (!inc) return;
+    snprintf(line, sizeof line, "%%include %s", name);
+    cx_gen_line(f, line);
+    cx_gen_file(inc, level + 1);
+}
+static void cx_gen_file(cx_file *f, int level)
+{
+    cx_buf_adds(&f->data, cx_g.magic);
+    if (level > cx_g.max_level) cx_g.max_level = level;
+    int n = (int) vh_range(0, level == 0 ? 40 : 14);
+    int chain_here = cx_g.chain_left > 0;          /* this file must include the next link of the chain */
+    int chain_at = chain_here ? (int) vh_below((uint64_t) n + 1) : -1;
+    if (chain_here) cx_g.chain_left--;
+    for (int i = 0; i <= n; i++) {
+        if (i == chain_at) { cx_gen_include(f, level); continue; }
+        if (i == n) break;
+        if (cx_g.lines_emitted > cx_g.line_budget) break;
+        if (cx_g.ramping && cx_g.depth >= cx_g.target_depth) cx_g.ramping = 0;
+        if (cx_g.ramping && vh_coin(85)) { cx_gen_begin(f); i--; continue; }      /* ramp lines do not count against n */
+        int r = (int) vh_below(100);
+        if (r < 42) cx_gen_text(f);
+        else if (r < 54) cx_gen_comment(f);
+        else if (r < 66) { if (cx_g.depth < cx_g.target_depth + 2 && cx_g.depth < 255) cx_gen_begin(f); else cx_gen_text(f); }
+        else if (r < 80) { if (cx_g.depth > 0) cx_gen_end(f); else if (vh_coin(25)) cx_gen_end(f); else cx_gen_text(f); }
+        else if (r < 86 && cx_g.files_left > 0 && level < 6 && !chain_here) { cx_g.files_left--; cx_gen_include(f, level); }
+        else if (r < 89 && cx_g.expansion) { char l[64]; snprintf(l, sizeof l, "%%put(k1 v%d)", (int) vh_below(1000)); cx_gen_line(f, l); }
+        else cx_gen_text(f);
+    }
+}
+/* whole tree: returns the main file.  Caller sets cx_g.{ctxs,n_reg,expansion,target_depth,files_left,chain_left} first. */
+static cx_file *cx_gen_tree(const char *mainname, int balanced, int first_file_no)
+{
+    snprintf(cx_g.magic, sizeof cx_g.magic, "<%s-%s>\n", libast_program_name, libast_program_version);
+    cx_g.depth = 0; cx_g.ramping = cx_g.target_depth > 0; cx_g.lines_emitted = 0; cx_g.line_budget = 2500; cx_g.next_file_no = first_file_no; cx_g.max_level = 0;
+    cx_file *mainf = cx_file_new(mainname);
+    cx_gen_file(mainf, 0);
+    while (cx_g.ramping && cx_g.depth < cx_g.target_depth) cx_gen_begin(mainf);       /* target not reached inside the files' line budgets */
+    for (int i = (int) vh_below(4); i > 0; i--) cx_gen_text(mainf);
+    if (balanced) { while (cx_g.depth > 0) { cx_gen_end(mainf); if (vh_coin(10)) cx_gen_text(mainf); } if (vh_coin(20)) cx_gen_end(mainf); }
+    else if (cx_g.depth == 0) cx_gen_begin(mainf);
+    if (vh_coin(50)) cx_gen_text(mainf);
+    return mainf;
+}
 
 #endif
